@@ -196,7 +196,7 @@ def quarter(start, zidx, rid):
     return skrgen.honest_request(rid, start, 9, zs, ZP, sign=True)
 
 
-VARIANTS = ["honest", "replayed", "replayed-other-serial", "gapped", "re-keyed", "partly-re-keyed", "re-keyed-same-identifier", "overlapping-ids", "too-early"]
+VARIANTS = ["honest", "replayed", "replayed-other-serial", "gapped", "re-keyed", "partly-re-keyed", "re-keyed-same-identifier", "overlapping-ids", "too-early", "gapped-by-an-overlap's-length"]
 
 
 def ksr_for(state, variant, seq):
@@ -215,6 +215,8 @@ def ksr_for(state, variant, seq):
         return dict(fresh_bundle_ids(quarter(start, zidx, state["skr"]["id"])), serial=state["skr"]["serial"] + 1)
     if variant == "gapped":
         return quarter(lastb["exp"] + D(days=1), zidx, rid)
+    if variant == "gapped-by-an-overlap's-length":
+        return quarter(lastb["exp"] + D(days=9, hours=12), zidx, rid)          # coverage missing for 9.5 days: the same number as an acceptable overlap, the other sign
     if variant == "too-early":
         return quarter(lastb["exp"] - D(days=13), zidx, rid)
     if variant == "re-keyed":
